@@ -296,6 +296,8 @@ def jobs(tier, seed):
     J.append(dict(name="rwlock:translator-selftest", kind="selftest", timeout=300))
     J.append(dict(name="publication:_maybe_precompute", kind="pub", fn="_maybe_precompute", timeout=600, cost=50))
     J.append(dict(name="publication:scale", kind="pub", fn="scale", timeout=600, cost=50))
+    J.append(dict(name="publication:x-vs-scale", kind="pub", fn="x", timeout=600, cost=50))
+    J.append(dict(name="publication:y-vs-scale", kind="pub", fn="y", timeout=600, cost=50))
     return J
 
 
@@ -313,8 +315,19 @@ def translate_pub(fn_name):
     shared = {"self.__precompute": "precompute", "self.__coords": "coords"}
     steps = []
 
-    def mentions(node):
-        return sorted({shared[ast.unparse(n)] for n in ast.walk(node) if isinstance(n, ast.Attribute) and ast.unparse(n) in shared})
+    methods = {f.name: f for f in cls.body if isinstance(f, ast.FunctionDef)}
+
+    def mentions(node, depth=0):
+        """shared attributes read by an expression/statement, in order, including the reads done by
+        methods of the same object that it calls (inlined up to depth 2)"""
+        out = []
+        for n in ast.walk(node):
+            if isinstance(n, ast.Attribute) and ast.unparse(n) in shared:
+                out.append(shared[ast.unparse(n)])
+            if depth < 2 and isinstance(n, ast.Call) and isinstance(n.func, ast.Attribute) and isinstance(n.func.value, ast.Name) and n.func.value.id == "self" and n.func.attr in methods and n.func.attr not in ("scale", "double", "__init__"):
+                for st_ in methods[n.func.attr].body:
+                    out += mentions(st_, depth + 1)
+        return out
 
     def stmt(st):
         if isinstance(st, ast.Expr) and isinstance(st.value, ast.Constant):
@@ -375,86 +388,98 @@ def translate_pub(fn_name):
 
 
 def check_pub(fn_name):
-    """explicit-state search is tiny, but the decision is made by z3: for two worker threads running
-    the step program and an observer, is there a schedule in which the observer reads the shared
-    attribute while it refers to an object that is neither the initial nor a completed one?"""
+    """z3 decides: thread 0 runs `fn_name`, thread 1 runs the mutator (scale, or a second
+    _maybe_precompute) on the same object, under every interleaving of their source-level steps.
+    Bad states: the shared table refers to a list that is neither empty nor complete; a thread
+    publishes coordinates (or returns a result) computed from two *different* versions of
+    self.__coords, i.e. it read the attribute more than once and a publication happened in between."""
     import time
     import z3
 
-    prog = translate_pub(fn_name)
+    mut = "_maybe_precompute" if fn_name == "_maybe_precompute" else "scale"
+    P = [translate_pub(fn_name), translate_pub(mut)]
     n = 2
-    H = 2 * len(prog) + 1
+    H = len(P[0]) + len(P[1]) + 1
     attr = "precompute" if fn_name == "_maybe_precompute" else "coords"
-    appends_total = sum(1 for s_ in prog if s_[0] == "append")
-    # state: pc_i; per thread one local list object (id i+1) with length len_i and done_i; shared pointer ptr (0 = initial object)
+    appends_total = sum(1 for s_ in P[0] if s_[0] == "append")
     S = []
     for k in range(H + 1):
-        S.append(dict(pc=[z3.BitVec("ppc%d_%d" % (i, k), 6) for i in range(n)], ln=[z3.BitVec("ln%d_%d" % (i, k), 4) for i in range(n)], has=[z3.Bool("has%d_%d" % (i, k)) for i in range(n)], ptr=z3.BitVec("ptr_%d" % k, 2), ini=z3.BitVec("ini_%d" % k, 4)))
+        S.append(dict(pc=[z3.BitVec("ppc%d_%d" % (i, k), 6) for i in range(n)], ln=[z3.BitVec("ln%d_%d" % (i, k), 4) for i in range(n)], ptr=z3.BitVec("ptr_%d" % k, 3), ini=z3.BitVec("ini_%d" % k, 4), cver=z3.BitVec("cver_%d" % k, 3), first=[z3.BitVec("first%d_%d" % (i, k), 3) for i in range(n)], mixed=[z3.Bool("mixed%d_%d" % (i, k)) for i in range(n)], badpub=z3.Bool("badpub_%d" % k)))
     s = z3.Solver()
     s.set("timeout", 300000)
-    s.add(S[0]["ptr"] == 0, S[0]["ini"] == 0)
+    s0 = S[0]
+    s.add(s0["ptr"] == 0, s0["ini"] == 0, s0["cver"] == 0, z3.Not(s0["badpub"]))
     for i in range(n):
-        s.add(S[0]["pc"][i] == 0, S[0]["ln"][i] == 0, z3.Not(S[0]["has"][i]))
+        s.add(s0["pc"][i] == 0, s0["ln"][i] == 0, s0["first"][i] == 7, z3.Not(s0["mixed"][i]))
     sched = [z3.BitVec("ps_%d" % k, 2) for k in range(H)]
     for k in range(H):
-        a, b = S[k], S[k + 1]
+        a_, b_ = S[k], S[k + 1]
         alts = []
         for i in range(n):
-            for j, ins in enumerate(prog):
-                g = [sched[k] == i, a["pc"][i] == j]
+            for j, ins in enumerate(P[i]):
+                g = [sched[k] == i, a_["pc"][i] == j]
                 npc = z3.BitVecVal(j + 1, 6)
-                ln_i, has_i, ptr, ini = a["ln"][i], a["has"][i], a["ptr"], a["ini"]
-                extra = []
+                ln_i, ptr, ini, cver = a_["ln"][i], a_["ptr"], a_["ini"], a_["cver"]
+                first_i, mixed_i, badpub = a_["first"][i], a_["mixed"][i], a_["badpub"]
+                other_ln = None
                 if ins[0] == "new":
-                    ln_i, has_i = z3.BitVecVal(0, 4), z3.BoolVal(True)
+                    ln_i = z3.BitVecVal(0, 4)
                 elif ins[0] == "append":
-                    ln_i = a["ln"][i] + 1
+                    ln_i = a_["ln"][i] + 1
                 elif ins[0] == "append-shared":
-                    # in-place mutation of whatever the shared attribute refers to
-                    ini = z3.If(a["ptr"] == 0, a["ini"] + 1, a["ini"])
-                    extra.append(("lnother", i))
+                    ini = z3.If(a_["ptr"] == 0, a_["ini"] + 1, a_["ini"])
+                    other_ln = True
+                elif ins[0] == "read" and ins[1] == "coords":
+                    mixed_i = z3.Or(a_["mixed"][i], z3.And(a_["first"][i] != 7, a_["first"][i] != a_["cver"]))
+                    first_i = z3.If(a_["first"][i] == 7, a_["cver"], a_["first"][i])
                 elif ins[0] == "publish":
-                    ptr = z3.BitVecVal(i + 1, 2)
-                    if ins[2] == "tuple":
-                        ln_i, has_i = z3.BitVecVal(appends_total, 4), z3.BoolVal(True)  # a tuple is complete when built
-                elif ins[0] in ("maybe-return", "return"):
-                    pass
-                upd = [b["ptr"] == ptr, b["ini"] == ini]
+                    if ins[1] == "coords":
+                        cver = z3.BitVecVal(i + 1, 3)
+                        badpub = z3.Or(a_["badpub"], a_["mixed"][i])
+                    else:
+                        ptr = z3.BitVecVal(i + 1, 3)
+                elif ins[0] == "return":
+                    badpub = z3.Or(a_["badpub"], a_["mixed"][i]) if attr == "coords" else badpub
+                upd = [b_["ptr"] == ptr, b_["ini"] == ini, b_["cver"] == cver, b_["badpub"] == badpub]
                 for t in range(n):
                     if t == i:
                         if ins[0] == "maybe-return":
-                            upd.append(z3.Or(b["pc"][t] == npc, b["pc"][t] == len(prog)))
+                            upd.append(z3.Or(b_["pc"][t] == npc, b_["pc"][t] == len(P[t])))
                         elif ins[0] == "return":
-                            upd.append(b["pc"][t] == len(prog))
+                            upd.append(b_["pc"][t] == len(P[t]))
                         else:
-                            upd.append(b["pc"][t] == npc)
-                        upd += [b["ln"][t] == ln_i, b["has"][t] == has_i]
+                            upd.append(b_["pc"][t] == npc)
+                        upd += [b_["ln"][t] == ln_i, b_["first"][t] == first_i, b_["mixed"][t] == mixed_i]
                     else:
-                        upd.append(b["pc"][t] == a["pc"][t])
-                        if ("lnother", i) in extra:
-                            upd.append(b["ln"][t] == z3.If(a["ptr"] == t + 1, a["ln"][t] + 1, a["ln"][t]))
-                        else:
-                            upd.append(b["ln"][t] == a["ln"][t])
-                        upd.append(b["has"][t] == a["has"][t])
+                        upd.append(b_["pc"][t] == a_["pc"][t])
+                        upd.append(b_["ln"][t] == (z3.If(a_["ptr"] == t + 1, a_["ln"][t] + 1, a_["ln"][t]) if other_ln else a_["ln"][t]))
+                        upd += [b_["first"][t] == a_["first"][t], b_["mixed"][t] == a_["mixed"][t]]
                 alts.append(z3.And(g + upd))
-        same = [b["ptr"] == a["ptr"], b["ini"] == a["ini"]] + [b["pc"][t] == a["pc"][t] for t in range(n)] + [b["ln"][t] == a["ln"][t] for t in range(n)] + [b["has"][t] == a["has"][t] for t in range(n)]
+        same = [b_["ptr"] == a_["ptr"], b_["ini"] == a_["ini"], b_["cver"] == a_["cver"], b_["badpub"] == a_["badpub"]] + [b_["pc"][t] == a_["pc"][t] for t in range(n)] + [b_["ln"][t] == a_["ln"][t] for t in range(n)] + [b_["first"][t] == a_["first"][t] for t in range(n)] + [b_["mixed"][t] == a_["mixed"][t] for t in range(n)]
         s.add(z3.Or(z3.Or(alts), z3.And([sched[k] == 3] + same)))
-    # observer may look at any state: the object the attribute refers to must be initial-and-untouched or complete
     bad = []
     for k in range(H + 1):
         st = S[k]
-        for i in range(n):
-            bad.append(z3.And(st["ptr"] == i + 1, st["ln"][i] != appends_total if attr == "precompute" else z3.BoolVal(False)))
-        bad.append(z3.And(st["ptr"] == 0, st["ini"] != 0))
+        if attr == "precompute":
+            for i in range(n):
+                bad.append(z3.And(st["ptr"] == i + 1, st["ln"][i] != appends_total))
+            bad.append(z3.And(st["ptr"] == 0, st["ini"] != 0))
+        bad.append(st["badpub"])
     s.add(z3.Or(bad))
     t0 = time.time()
     r = s.check()
     trace = None
     if r == z3.sat:
         m = s.model()
-        trace = [(m.eval(sched[k], True).as_long(),) for k in range(H)]
-    npub = sum(1 for x in prog if x[0] == "publish")
-    return str(r), trace, dict(solver_s=round(time.time() - t0, 2), steps=len(prog), publishes=npub, program=[list(x) for x in prog], horizon=H)
+        trace = []
+        for k in range(H):
+            i = m.eval(sched[k], True).as_long()
+            if i < n:
+                pcv = m.eval(S[k]["pc"][i], True).as_long()
+                trace.append((i, list(P[i][pcv]) if pcv < len(P[i]) else "end"))
+    npub = sum(1 for x in P[0] if x[0] == "publish")
+    nread = sum(1 for x in P[0] if x[0] == "read")
+    return str(r), trace, dict(solver_s=round(time.time() - t0, 2), steps=len(P[0]), publishes=npub, reads=nread, program=[list(x) for x in P[0]], horizon=H)
 
 
 def run_job(job):
@@ -501,7 +526,7 @@ def run_job(job):
         if kind == "pub":
             r, trace, st = check_pub(job["fn"])
             res = dict(queries=1, solver_s=st["solver_s"], states=st["horizon"] * 8, transitions=st["horizon"] * st["steps"] * 2, symbolic_dims=st["horizon"], message="%s: %d steps, %d publication(s): %s -> %s" % (job["fn"], st["steps"], st["publishes"], st["program"], r))
-            if r == "unsat" and st["publishes"] >= 1:
+            if r == "unsat" and (st["publishes"] >= 1 or (job["fn"] in ("x", "y") and st["reads"] >= 1)):
                 res.update(verdict="held", state="UNSAT")
             elif r == "sat":
                 res.update(verdict="violated", state="SAT", witness=dict(trace=trace, program=st["program"]), signature="C20:publication:" + job["fn"])
